@@ -248,12 +248,21 @@ func runC14SioLoop(c *sim.Ctx, t *testing.T) {
 	}
 	g := &vfGen{c: c, mids: mids}
 	nmsgs := 1 + c.Intn(4, "nmsgs")
+	// half of the crews also have a machine without state: it emits and never changes, so
+	// that results come by which report emissions and no change at all
+	echo := c.Bool("echo")
+	if echo {
+		present[vfEchoMid] = true
+	}
+	anyNan := false
 	var msgs []map[string]interface{}
 	want := map[string][]string{}
+	var wantBatches []string
 	poisoned := map[string]bool{}
 	for k := 0; k < nmsgs; k++ {
 		m := g.message(2)
-		if c.Chance(1, 4, "nan") {
+		if !echo && c.Chance(1, 4, "nan") {
+			anyNan = true
 			// only on a submitted message: within a cascade the order of one round's
 			// messages is unspecified, and with it which of them a poisoned machine misses
 			m["nan"] = map[string]interface{}{mids[c.Intn(len(mids), "nanmid")]: true}
@@ -263,8 +272,13 @@ func runC14SioLoop(c *sim.Ctx, t *testing.T) {
 		for mid, ids := range md.seen {
 			want[mid] = append(want[mid], ids...)
 		}
+		wantBatches = append(wantBatches, md.batches...)
+		for _, id := range md.echo {
+			wantBatches = append(wantBatches, ref.Canon([]interface{}{map[string]interface{}{"id": "echo-" + id, "to": "nobody"}}))
+		}
 	}
 	got := map[string][]string{}
+	var gotBatches []string
 	nresults := 0
 	sim.Bubble(c, t, func(s *sim.Sched) {
 		s.Horizon = time.Minute
@@ -283,15 +297,28 @@ func runC14SioLoop(c *sim.Ctx, t *testing.T) {
 				return
 			}
 		}
+		if echo {
+			if err := crew.SetMachine(ctx, vfEchoMid, vfEchoSource(), nil); err != nil {
+				c.Infra = "SetMachine: " + err.Error()
+				cancel()
+				return
+			}
+		}
 		s.Go("loop", func(tk *sim.Task) { crew.Loop(ctx) })
 		s.Go("consumer", func(tk *sim.Task) {
 			for {
 				sim.Yield("h#consume")
-				if _, ok := sim.RecvOrDone("h#consume-select", ctx.Done(), (<-chan *Result)(cp.out)); !ok {
+				r, ok := sim.RecvOrDone("h#consume-select", ctx.Done(), (<-chan *Result)(cp.out))
+				if !ok {
 					return
 				}
 				sim.Yield("h#consumed")
 				nresults++
+				if r != nil {
+					for _, b := range r.Emitted {
+						gotBatches = append(gotBatches, ref.Canon(b))
+					}
+				}
 			}
 		})
 		s.Go("submitter", func(tk *sim.Task) {
@@ -344,6 +371,25 @@ func runC14SioLoop(c *sim.Ctx, t *testing.T) {
 			return
 		}
 		c.Add("deliveries", len(gs))
+	}
+	if !anyNan {
+		// every emitted message is reported to the host exactly once - here: in the results the
+		// loop hands to its couplings (a failed ProcessMsg reports nothing, so runs with a
+		// machine that cannot be encoded are left out)
+		sort.Strings(gotBatches)
+		sort.Strings(wantBatches)
+		if vfJoin(gotBatches) != vfJoin(wantBatches) {
+			kind := "unreported"
+			if len(gotBatches) > len(wantBatches) {
+				kind = "extra"
+			}
+			c.Violate("route:sio-loop:"+kind, "%s: the results handed to the couplings carry the batches %v, expected (one per machine and message that emitted) %v", desc, gotBatches, wantBatches)
+			return
+		}
+		c.Add("batches_reported", len(gotBatches))
+		if echo {
+			c.Count("runs_with_stateless_emitter")
+		}
 	}
 	c.Add("results", nresults)
 	c.Add("steps_with_choice", c.Sched.Switches)
